@@ -230,3 +230,111 @@ fn plan_c19(thorough: bool) -> Plan {
     p.budget_s = if thorough { 1500 } else { 45 };
     p
 }
+
+// ---------------------------------------------------------------------------------------------
+// Crash / fault plans
+
+fn cfg_crash() -> Cfg {
+    let mut c = cfg_small();
+    c.buckets = 64;
+    c.rollback = true;
+    c.log_len = 2;
+    c.seg_size = 8192;
+    c
+}
+
+fn hist(seed: &str, universe: Vec<&str>, cfg: &Cfg, ops: Vec<Value>) -> Value {
+    json!({"seed": seed, "universe": universe, "cfg": cfg.to_json(), "audit": "all", "ops": ops, "final_reopen": false})
+}
+
+/// The history set H3: (history, index of the traced operation).
+pub fn crash_histories(thorough: bool) -> Vec<(Value, usize, u64)> {
+    let cfg = cfg_crash();
+    let mut out: Vec<(Value, usize, u64)> = vec![];
+    // (a) deviation-bounded commit histories, traced op = the last commit
+    let a = acts(&[("w", Some(1)), ("w", Some(1333)), ("d", None)]);
+    for (seed, uni) in [("empty", vec!["U4"]), ("leaf", vec!["seed:0,2,5", "CL0:0-1"]), ("cl12x20", vec!["CL12:18-22"])] {
+        let b = if thorough { 3 } else { 1 };
+        let d = if thorough { 3 } else { 2 };
+        let cases = enum_commit_histories(d, 4, b, &a, &|ops, b| json!({"ops": ops, "b": b}));
+        for c in cases {
+            let ops = c["ops"].as_array().unwrap().clone();
+            let n = ops.len();
+            out.push((hist(seed, uni.clone(), &cfg, ops), n - 1, c["b"].as_u64().unwrap()));
+        }
+    }
+    // (b) explicit multi-step histories: rollback, reopen, overlay commit, pruning, overflow
+    let w = |k: u64, s: u64| json!([k, "w", s]);
+    let del = |k: u64| json!([k, "d"]);
+    let c = |items: Vec<Value>| json!({"c": items});
+    let u4 = vec!["U4"];
+    let ex: Vec<(Vec<Value>, usize)> = vec![
+        (vec![c(vec![w(0, 1)]), c(vec![w(1, 1333)]), json!({"rb": 1})], 2),
+        (vec![c(vec![w(0, 1)]), c(vec![w(1, 1333)]), c(vec![del(0)]), json!({"rb": 2})], 3),
+        (vec![c(vec![w(0, 1)]), c(vec![w(1, 1333), del(0)]), json!({"reopen": {}})], 2),
+        (vec![c(vec![w(0, 1)]), json!({"ov": {"id": 0, "on": [], "b": [w(1, 1333), del(0)]}}), json!({"ovc": 0})], 2),
+        (vec![c(vec![w(0, 1)]), json!({"ov": {"id": 0, "on": [], "b": [w(1, 1)]}}), json!({"ov": {"id": 1, "on": [0], "b": [w(2, 1333)]}}), json!({"ovc": 0}), json!({"ovc": 1})], 4),
+        (vec![c(vec![w(0, 1)]), json!({"rb": 1}), c(vec![w(1, 1)])], 2),
+        (vec![c(vec![w(0, 1)]), c(vec![w(1, 1)]), c(vec![w(2, 1)]), c(vec![w(3, 1)])], 3),
+        (vec![c(vec![w(0, 1)]), c(vec![w(1, 1)]), c(vec![w(2, 1)]), json!({"rb": 1})], 3),
+        (vec![c(vec![w(0, 70000)])], 0),
+        (vec![c(vec![w(0, 70000)]), c(vec![del(0), w(1, 1)])], 1),
+        (vec![c(vec![w(0, 70000), w(1, 1333)]), json!({"rb": 1})], 1),
+        (vec![c(vec![w(0, 1)]), c(vec![w(0, 2)]), json!({"reopen": {}}), json!({"rb": 1})], 3),
+    ];
+    for (ops, t) in ex {
+        out.push((hist("empty", u4.clone(), &cfg, ops), t, 3));
+    }
+    // cluster: page elision / un-elision and tombstones under crash
+    let cl = vec!["CL12:17-23"];
+    let exc: Vec<(Vec<Value>, usize)> = vec![
+        (vec![c(vec![del(1)])], 0),
+        (vec![c(vec![del(1), del(2)]), c(vec![w(1, 1), w(2, 1)])], 1),
+        (vec![c(vec![del(0), del(1), del(2)]), json!({"rb": 1})], 1),
+    ];
+    for (ops, t) in exc {
+        out.push((hist("cl12x20", cl.clone(), &cfg, ops), t, 3));
+    }
+    if thorough {
+        // every earlier op of the explicit histories as target too is covered by (a) prefixes;
+        // add two-worker variants
+        let mut cfg2 = cfg_crash();
+        cfg2.cc = 3;
+        let cases = enum_commit_histories(2, 4, 2, &a, &|ops, b| json!({"ops": ops, "b": b}));
+        for cse in cases {
+            let ops = cse["ops"].as_array().unwrap().clone();
+            let n = ops.len();
+            out.push((hist("leaf", vec!["seed:0,2,5", "CL0:0-1"], &cfg2, ops), n - 1, cse["b"].as_u64().unwrap()));
+        }
+    }
+    out
+}
+
+pub fn crash_plan(prop: &str, tier: &str) -> Plan {
+    let thorough = tier == "thorough";
+    let hs = crash_histories(thorough);
+    let mode = match prop {
+        "C03" => "c03",
+        "C04" => "c04",
+        "C17" => "c17",
+        _ => panic!("no crash plan for {prop}"),
+    };
+    let mut cases: Vec<Value> = hs
+        .into_iter()
+        .map(|(h, t, b)| json!({"mode": mode, "hist": h, "target": t, "bound": b, "cap": if thorough { 8 } else { 5 }, "nested": true, "max_per_instant": if thorough { 96 } else { 40 }}))
+        .collect();
+    sort_by_bound(&mut cases);
+    let rule = match prop {
+        "C03" => "crashx: for every history of the set H3 (all histories of ≤D commits with ≤B key actions {write 1 B, write 1333 B, delete} over 4 colliding keys from seeds {empty, leaf, 20-key cluster below a depth-2 merkle page}, plus explicit rollback / reopen / overlay-commit / log-pruning / overflow-value histories; rollback enabled, log length 2, 8 KiB rollback segments, 64-bucket hash table) the last operation is executed on the real store with every mutating file operation recorded (submission and completion stamps); for EVERY instant of the trace and EVERY subset of the operations in flight at that instant (capped: beyond `cap` in-flight operations only none/all/each single/each single missing/each prefix) the directory image is materialised and reopened with the real Nomt::open; the reopened store must show exactly the old or exactly the new state (values, root, proofs, sync_seqn from the same side; new whenever the operation had returned), decode to that state (independent decoder) and accept a follow-up commit and rollback that behave as in the model; the recovery of every image is itself recorded and cut at every instant (nested once). evaluations = traced operations; transitions = images opened.",
+        "C04" => "crashx: the history set and traces of C03 under POWER-LOSS semantics: an operation is durable at instant t iff a sync of its file (its directory for create/unlink) was submitted after it completed and completed before t; for every instant, every combination (capped per instant, reported) of: per file, every prefix in issue order of the non-durable size-changing operations (set_len, append — the last kept append also cut at every page boundary), every subset (capped) of the non-durable in-place page writes, at most one write torn at the 2 KiB boundary either way; per directory every prefix of non-durable creates/unlinks. Each image is reopened with the real Nomt::open and audited as in C03 (exactly old or exactly new; new once the operation returned); nested once into recovery. transitions = images opened.",
+        _ => "crashx monitor: for every traced operation of the history set H3, every mutating file operation submitted before the meta fsync completes is checked against the live regions of the pre-image as decoded by the independent decoder (leaves, overflow pages, branch nodes, free-list pages of both value files; the whole hash-table file; segments / byte ranges holding live rollback records; the meta page): no write into a live ln/bbn page (only free pages or pages at/after the bump), no ht write at all, no truncation below the bump or below the end of live rollback records, no unlink of a segment holding live records; the WAL is exempt (redo log). transitions = operations checked.",
+    };
+    let mut p = Plan::new(cases, rule);
+    p.level = if prop == "C17" { "model_checking" } else { "fault_enumeration" };
+    p.budget_s = if thorough { 1700 } else { 45 };
+    p.assumptions = vec![
+        "the recorded order is one real execution; crash images are the states that execution could have left (pool-thread schedule diversity comes from repeated runs / worker counts, not enumerated here)".into(),
+        "file-system model: process crash = completed syscalls persist, in-flight ones are atomic per call; power loss = as stated in the rule; the seam self-check (pre-image + recorded events = real directory) runs on every traced operation".into(),
+    ];
+    p
+}
